@@ -22,6 +22,10 @@ Module Hs := HV.Model.Hyperslab.
 Definition hsel_of (s : selection) : Hs.hsel := Hs.mkSel (s_start s) (s_count s) (s_stride s) (s_block s).
 Definition axes_of_sel (s : sel) : list Hs.axis := Hs.zip4 (start s) (count s) (stride s) (block s).
 
+(* a filled selection of rank n *)
+Definition sel_lens (s : sel) (n : nat) : Prop :=
+  length (start s) = n /\ length (count s) = n /\ length (stride s) = n /\ length (block s) = n.
+
 (* ------------------------------------------------------------------ bytes as elements *)
 (* the i-th element of es bytes *)
 Definition elem (es : N) (b : bytes) (i : N) : bytes := rd b (i * es) es.
